@@ -202,8 +202,10 @@ Section Model.
     end.
 
   (* balancer.DoneInfo as gRPC fills it: Err (None = nil, Some c = status code), BytesSent, BytesReceived,
-     Trailer present, ServerLoad present.  The done func reads info.Err and nothing else (p2c.go:155-158). *)
-  Record doneinfo := mkinfo { d_err : option Z; d_sent : bool; d_recv : bool; d_trailer : bool; d_load : bool }.
+     Trailer present, ServerLoad present; the status MESSAGE of the error.  The done func reads info.Err and nothing
+     else (p2c.go:155-158), and codes.Acceptable (accept.go:10) looks at status.Code(err) only, never at the message. *)
+  Record doneinfo := mkinfo { d_err : option Z; d_sent : bool; d_recv : bool; d_trailer : bool; d_load : bool;
+                              d_msg : nat (* which status message the error carries *) }.
   Definition done_info (s : st) (k : nat) (info : doneinfo) (w : W) : result st := done s k (d_err info) w.
 
   Definition advance (s : st) (dt : Z) : st := mkst (now s + dt) (conns s) (stamp s) (tokens s).
